@@ -66,7 +66,7 @@ var smallIndexSegs = []string{"0", "1", "2", "3", "7", "00", "01", "+0", "+1", "
 // "index" elements is far outside the size bound (2 bytes per empty element against 1024 x ~30
 // bytes of input), small enough that such a decoder still returns (so the oracle, not the
 // watchdog, reports it and the shard goes on).
-var largeIndexSegs = []string{"9999", "65535", "65536", "100000", "1000000", "3000000"}
+var largeIndexSegs = []string{"9999", "65535", "65536", "100000", "1000000"}
 
 // huge indices (Go-only stress stream): a decoder that walks / allocates up to the index never
 // returns; the watchdog (time or memory) attributes it to the op.
@@ -74,7 +74,7 @@ var hugeIndexSegs = []string{"2000000000", "2147483647", "2147483648", "42949672
 
 // indexedKey builds one query key with index-like / empty segments. label names the shape for the
 // statistics. ok=false: the root has no property to work with.
-func indexedKey(h *vh.H, root *sRoot, idxs []string) (key string, label string, ok bool) {
+func indexedKey(h *vh.H, root *sRoot, idxs []string, force bool) (key string, label string, ok bool) {
 	var paths []idxPath
 	idxPaths(root, nil, 0, &paths)
 	if len(paths) == 0 {
@@ -89,7 +89,7 @@ func indexedKey(h *vh.H, root *sRoot, idxs []string) (key string, label string, 
 		}
 	}
 	p := paths[h.Rng.IntN(len(paths))]
-	if len(conts) > 0 && h.Rng.IntN(2) == 0 {
+	if len(conts) > 0 && (force || h.Rng.IntN(2) == 0) {
 		p = conts[h.Rng.IntN(len(conts))]
 	}
 	kind := p.field.kind
@@ -104,7 +104,11 @@ func indexedKey(h *vh.H, root *sRoot, idxs []string) (key string, label string, 
 		return r.props[h.Rng.IntN(len(r.props))].json
 	}
 	sub := containerOf(p.field)
-	switch x := h.Rng.IntN(12); {
+	x := h.Rng.IntN(12)
+	if force {
+		x = x % 6 // stress stream: the index is followed by a child
+	}
+	switch {
 	case x < 5: // prop.<idx>.<child of the element / value / object type>
 		segs = append(segs, pick(), child(sub))
 		label = "idx-child"
@@ -183,7 +187,7 @@ func (im *impl) genIndexedQuery(h *vh.H, idxs []string, withEnv bool, rootName s
 	var keys [][]string
 	seen := map[string]bool{}
 	for k := 0; k < nk; k++ {
-		key, label, ok := indexedKey(h, root, idxs)
+		key, label, ok := indexedKey(h, root, idxs, rootName != "")
 		if !ok || seen[key] {
 			continue
 		}
@@ -204,27 +208,47 @@ func (im *impl) genIndexedQuery(h *vh.H, idxs []string, withEnv bool, rootName s
 //
 // The time watchdog (exec.go) turns a call that does not return into a crash the engine attributes
 // to the op. A decoder whose loop allocates runs the machine out of memory long before 60 s: the
-// same is done for the heap. Only while a real-code call is running; the limit is far above what
-// any legitimate op of these streams needs (the largest inputs are 4 MiB).
+// same is done for the heap. The metric is the heap of the whole harness process (which also keeps
+// ops, results and the distinct set, growing with the number of ops), so what counts is the GROWTH
+// since the running call started: the first sample taken within a call is its base line. The limit
+// is far above what any legitimate op of these streams needs (the largest inputs are 4 MiB).
+// limit 0 = no memory watchdog (streams whose calls are not decodes of hostile input).
 func startMemWatchdog(limit uint64) {
+	if limit == 0 {
+		return
+	}
 	go func() {
 		s := []metrics.Sample{{Name: "/memory/classes/heap/objects:bytes"}}
 		over := 0
+		var curCall int64
+		var base uint64
 		for {
 			time.Sleep(100 * time.Millisecond)
-			if opStart.Load() == 0 {
-				over = 0
+			st := opStart.Load()
+			if st == 0 {
+				over, curCall = 0, 0
 				continue
 			}
 			metrics.Read(s)
-			if s[0].Value.Kind() != metrics.KindUint64 || s[0].Value.Uint64() <= limit {
+			if s[0].Value.Kind() != metrics.KindUint64 {
+				continue
+			}
+			now := s[0].Value.Uint64()
+			if st != curCall {
+				curCall, base, over = st, now, 0
+				continue
+			}
+			if now < base {
+				base = now // a collection ran: garbage of earlier ops is gone
+			}
+			if now-base <= limit {
 				over = 0
 				continue
 			}
 			over++
 			if over >= 3 { // still above the limit after a few samples within one call
-				fmt.Fprintf(os.Stderr, "WATCHDOG: call holds %d MiB of live heap (limit %d MiB), memory not bounded by the input: %.300v\n",
-					s[0].Value.Uint64()>>20, limit>>20, opName.Load())
+				fmt.Fprintf(os.Stderr, "WATCHDOG: live heap grew by %d MiB during one call (limit %d MiB), memory not bounded by the input: %.300v\n",
+					(now-base)>>20, limit>>20, opName.Load())
 				os.Exit(3)
 			}
 		}
@@ -236,8 +260,11 @@ var fuzzIndexSegs = append(append([]string{}, smallIndexSegs...), largeIndexSegs
 // memLimitFor: live-heap limit of one real-code call. The fuzz / history inputs are at most 64 KiB;
 // the stress stream decodes MiB inputs nested 10^5 deep (hundreds of MiB of legitimate messages).
 func memLimitFor(stream string) uint64 {
-	if stream == "codec.stress" {
+	switch stream {
+	case "codec.stress":
 		return 8 << 30
+	case "codec.fuzz", "codec.history":
+		return 3 << 30
 	}
-	return 3 << 30
+	return 0 // codec.enc / codec.dec / codec.query / codec.corpus: no memory watchdog
 }
